@@ -84,8 +84,8 @@ def assert_fixpoints() -> None:
             for st in alphabet(name, cls):
                 if not T.is_rdf11(st):
                     raise HarnessError(f"{name}: {st} is not RDF 1.1")
-                for t in st:
-                    if T.from_rdflib(T.to_rdflib(t)) != tuple(t):
+                for i, t in enumerate(st):
+                    if T.from_rdflib(T.to_rdflib(t), graph_pos=(i == 3)) != tuple(t):
                         raise HarnessError(f"{name}: rdflib normalises {t}")
 
 
